@@ -41,6 +41,8 @@ val tl : 'a1 list -> 'a1 list
 
 val in_dec : ('a1 -> 'a1 -> bool) -> 'a1 -> 'a1 list -> bool
 
+val nth : nat -> 'a1 list -> 'a1 -> 'a1
+
 val nth_error : 'a1 list -> nat -> 'a1 option
 
 val rev : 'a1 list -> 'a1 list
@@ -52,6 +54,8 @@ val map : ('a1 -> 'a2) -> 'a1 list -> 'a2 list
 val flat_map : ('a1 -> 'a2 list) -> 'a1 list -> 'a2 list
 
 val fold_left : ('a1 -> 'a2 -> 'a1) -> 'a2 list -> 'a1 -> 'a1
+
+val fold_right : ('a2 -> 'a1 -> 'a1) -> 'a1 -> 'a2 list -> 'a1
 
 val existsb : ('a1 -> bool) -> 'a1 list -> bool
 
@@ -339,6 +343,8 @@ type key =
 | KIdx of z
 
 type node = key list * json
+
+val key_eqb : key -> key -> bool
 
 val is_container : json -> bool
 
@@ -1171,6 +1177,65 @@ val hstep : envcfg -> hstate -> hop -> hstate * hout
 
 val hrun : envcfg -> hstate -> hop list -> hstate * hout list
 
+type cell =
+| CScalar
+| CArr of nat list
+| CObj of (str * nat) list
+
+type graph = cell list
+
+val cell_of : graph -> nat -> cell
+
+val is_cont : cell -> bool
+
+val kids_of : cell -> (key * nat) list
+
+val gvisit : graph -> nat -> key list -> nat -> (key list * nat) list result
+
+val gdesc_wild : graph -> nat -> key list list result
+
+val take1 : z list -> z * z list
+
+val remove_nth : nat -> 'a1 list -> 'a1 list
+
+val apply_perm : nat -> z -> 'a1 list -> 'a1 list
+
+val shuffle : z list -> 'a1 list -> 'a1 list * z list
+
+type gen_state =
+| Unstarted of node
+| Remaining of node list
+
+type pending = (gen_state * nat) list
+
+val gen_next : z list -> gen_state -> (node option * gen_state) * z list
+
+val set_nth : nat -> 'a1 -> 'a1 list -> 'a1 list
+
+val nd_loop : nat -> nat -> z list -> pending -> node list -> node list result
+
+val count_nodes : json -> nat
+
+val nd_visit : nat -> z list -> node -> node list result
+
+val loc_eqb : key list -> key list -> bool
+
+val index_of : key list -> key list list -> nat -> nat option
+
+val parent_and_prev : key list -> key list option * key list option
+
+val before : key list list -> key list -> key list -> bool
+
+val valid_order : node -> key list list -> bool
+
+val queues_of : node -> node list list
+
+val picks : 'a1 list list -> 'a1 list list -> ('a1 * 'a1 list list) list
+
+val all_orders_from : nat -> node list list -> node list list
+
+val all_orders : node -> node list list
+
 val iota_json : z -> json list
 
 val enc_sel0 : (z * json) list -> z list
@@ -1220,5 +1285,17 @@ val dec_hop : rxrow list -> hop dec
 val enc_hout : hout -> z list
 
 val op_history : z list -> z list
+
+val enc_loc : key list -> z list
+
+val op_nd_visit : z list -> z list
+
+val dec_cell : cell dec
+
+val op_graph : z list -> z list
+
+val op_valid_order : z list -> z list
+
+val op_all_orders : z list -> z list
 
 val dispatch : z list -> z list
